@@ -148,6 +148,13 @@ def classify(err, ranges):
     is_setbytes = sfn in ("sm2/internal/fiat.(*SM2Element).SetBytes", "sm2/internal/fiat.(*SM2ScalarElement).SetBytes")
     # Verdict sites (both levels): the statement allows "only the final accept/reject verdicts" to depend on the secret.
     decision = bool(f and any(a <= line <= b for a, b in (f.get("decision_ifs") or [])))
+    # ... and a FINAL verdict: it may not precede a loop of the same function (a verdict taken before the loop that
+    # processes the operands is an early exit: "fast path when the first bytes differ")
+    if decision and f and (f.get("loops") or []):
+        last_loop_end = max(b for _, b in f["loops"])
+        if line < last_loop_end and not in_loop(f, line):
+            decision = False
+            info["verdict_before_loop"] = True
     info["decision_if"] = decision
     if (is_cmp or is_setbytes or sfn == "sm2.TestPrivateKey") and not loop and decision and kind == "branch":
         # the condition of an `if` whose body always returns: an accept/reject verdict, outside every loop
